@@ -3,12 +3,14 @@ import os
 
 PID = "C13"
 THEOREM_FILE = "Properties/C13.v"
+# group B theorems live in their own file (./check reads THEOREM_FILE; to be wired in by the maintainer)
+EXTRA_THEOREM_FILES = ["Properties/C13b.v"]
 NEEDS_KNUT = True
 
 _HERE = os.path.dirname(os.path.abspath(__file__))
 # group A (this file's generators): swisscard2, viac, cumulus, postfinance, swisscard, supercard.
-# group B (revolut2, revolut, wise, swissquote, interactivebrokers) registers the generator "C13b"
-# in harness/c13b.go; it is planned only when that file is present.
+# group B (revolut2, revolut, wise, swissquote, interactivebrokers: all modelled) registers the generator "C13b"
+# in harness/c13b.go; it is planned only when that file is present.  Importers not modelled: none.
 HAS_B = os.path.exists(os.path.join(_HERE, "..", "harness", "c13b.go"))
 
 RULE = ("per importer (ch.swisscard2, ch.viac, ch.cumulus, ch.postfinance, ch.swisscard, ch.supercard) generated statements "
@@ -24,7 +26,22 @@ RULE = ("per importer (ch.swisscard2, ch.viac, ch.cumulus, ch.postfinance, ch.sw
         "account, currency), the booking rows the generator wrote down before rendering the file; line structure header/"
         "one posting/blank.  A second stream damages one row (impossible date, other date format, bad amount, wrong column "
         "count, bad currency) or the account flag (invalid, empty, omitted): exit 1, empty stdout, no panic is required.  Non-trivial: a well-formed "
-        "statement with at least 3 rows; distinct by input.")
+        "statement with at least 3 rows; distinct by input.  "
+        "Group B (revolut2, revolut, com.wise, ch.swissquote, us.interactivebrokers; generator C13b, Model/Imp/{Revolut2,Revolut,Wise,"
+        "Swissquote,Interactivebrokers}.v): statements of 0-40 rows in the bank's format with both signs, fees, several currencies, "
+        "thousands separators, free text with quotes/semicolons/Unicode (newlines where the format quotes fields), and the row kinds "
+        "each format has: revolut2 pending rows and per-row balances; revolut currency sales/purchases and per-day balances; wise "
+        "OUT/IN/NEUTRAL rows with and without conversion, fees in either fee column, cancelled rows; swissquote purchases, sales, "
+        "exchange row pairs, dividends with tax, custody fees, transfers, interest, unknown kinds; interactivebrokers activity "
+        "statements with Trades (stocks, forex), Deposits & Withdrawals, Dividends, Withholding Tax, Interest, Open Positions, Forex "
+        "Balances, header/total rows and other sections.  `knut import <cmd>` with all account flags; model stdout must be byte-identical. "
+        "Spec on the binary's output: (a) stdout, with `open` directives and a transaction carrying the holdings before the statement "
+        "prepended, is accepted by `knut print` (which also runs the balance assertions) and re-printed byte-identically; (b) the "
+        "multiset of (date, change of the import account per commodity) over the printed transactions equals the generator's own "
+        "account of the rows (per expected transaction: a wise conversion row stands for two, a swissquote exchange pair for one), "
+        "the multiset of balance lines equals the balances the statement carries, and nothing else is printed.  Damaged statements "
+        "(date, date format, amount, column count, currency/direction, account flag invalid or omitted) are compared with the model "
+        "only.")
 TRUSTED_BASE = [
     "Coq 8.16.1 kernel",
     "extraction (ExtrOcamlBasic only), OCaml 4.13.1, drv_c13a.ml (decoding of the case line, rendering)",
@@ -38,24 +55,47 @@ TRUSTED_BASE = [
     "`\\d\\d.\\d\\d.\\d\\d\\d\\d` and `\\s+`, fmt.Sprintf/Println and decimal.NewFromString are hand-modelled in "
     "Model/ImpCommonA.v and tied to the code only by this correspondence",
     "Model/JPrinter.v (journal.Print) as validated by the print correspondence",
+    "group B: drv_c13b.ml; harness c13b.go (statement generators, the generator's facts/assertions/opening holdings, the "
+    "regular-expression reader of transactions, annotations and balance lines, the `knut print` round trip incl. the hand-formatted "
+    "opening transaction); encoding/csv with each importer's configuration (c13bReadItems) is observed, not modelled; Go's "
+    "time.Parse for the layouts `2 Jan 2006`, `January 2, 2006`, `02-01-2006`, strings.Fields/Split/SplitN/NewReplacer, the regular "
+    "expressions of revolut and interactivebrokers, decimal.Round and Decimal.String are hand-modelled in Model/ImpCommonB.v, "
+    "Model/Imp/*.v, Model/Dec.v and tied to the code only by this correspondence",
 ]
 ASSUMPTIONS = [
     "statement text is valid UTF-8 (ISO 8859-1 for supercard); currency and account names are ASCII",
     "decimal exponents stay small (no 1e999999999 amounts)",
     "the theorems quantify over records, not over file bytes: CSV/JSON lexing is outside them",
+    "group B: every account flag is given and non-empty (an empty flag yields a nil account; not generated); revolut2 and revolut "
+    "statements list rows in the order in which the Balance column is a running balance (revolut2: completion order, one currency "
+    "per day; revolut: newest first) - see findings/C13-revolut2-balances.md, findings/C13-revolut-balances.md; swissquote exchange "
+    "rows come in complete pairs",
 ]
-TECHNIQUE = ("Coq proofs over hand-written Gallina models of six importers (per-importer row-to-transaction theorems against "
-             "Spec/ImpSpecA.v) + byte-exact model/implementation correspondence on generated statements + executable "
+TECHNIQUE = ("Coq proofs over hand-written Gallina models of all eleven importers (per-importer row-to-transaction theorems against "
+             "Spec/ImpSpecA.v and Spec/ImpSpecB.v; interactivebrokers: per-row theorems only) + byte-exact model/implementation correspondence on generated statements + executable "
              "specification (re-print through knut's own parser, independent row facts) evaluated on the binary's output")
 LEVEL_TEXT = ("C13_<importer>_faithful and C13_<importer>_end_to_end (Coq): for every list of well-formed rows the importer model emits exactly one "
               "single-booking transaction per booking row, in order, on the row's date, whose effect on the import account is "
               "the row's signed amount in the row's currency (viac: one price per non-zero daily value), and nothing else; "
               "C13_print_balanced, C13_description_verbatim and the byte-level witness C13_quote_breaks_header for the "
               "shared back half.  Deviations of the code from the property's wording are stated as the relation the code "
-              "implements and listed as findings.")
+              "implements and listed as findings.  Group B (Properties/C13b.v): C13_revolut2_faithful (one transaction per completed row, "
+              "Amount - Fee; one assertion per day and currency with the last row's Balance), C13_revolut_faithful (one transaction per row, "
+              "exchange rows in two commodities; an assertion at every change of date), C13_wise_faithful (zero, one or two transactions per "
+              "row as ws_entries lists them) with C13_wise_incoming_conversion_refuted (IN with conversion credits the target amount twice), "
+              "C13_swissquote_faithful (one transaction per row except one per pair of exchange rows) with "
+              "C13_swissquote_open_exchange_dropped, and C13_interactivebrokers_{deposit,dividend,interest,withholding,stock}_row_partial "
+              "(what one record yields; the statement-level theorem is not proved): in each the transactions are dated on the row date, "
+              "consist of exactly the row's bookings and change the import account by exactly the row's signed amounts (less fee) in "
+              "every commodity.")
 LEVEL_NOTE = ("Trusted: kernel, extraction, harness, Go's csv/json/charset readers (observed, not modelled). The tie between "
               "model and code is sampled (quick: 100 well-formed + 34 damaged statements per importer). The parser half of "
-              "the round trip is checked on the binary (knut print), not proved (parser model: C07/C09).")
+              "the round trip is checked on the binary (knut print), not proved (parser model: C07/C09).  Group B: 100 well-formed + "
+              "34 damaged statements per importer in the quick tier; interactivebrokers has no statement-level theorem (Forex trades, "
+              "assertions and ignored records are covered by the byte-exact correspondence only).  Open findings on which the check "
+              "fails on the unchanged tree: wise statements tagged note=incoming-conversion (findings/C13-wise-incoming-conversion.md, "
+              "patch included; drv_c13b.ml wise_repaired) and interactivebrokers statements tagged note=fractional "
+              "(findings/C13-interactivebrokers-rounding.md).")
 
 
 def plan(tier, seed):
@@ -91,6 +131,8 @@ def distribution(cases):
         f = _flags(c)
         imp = f.get("imp", c.op)
         e = d.setdefault(imp, {"wf": 0, "mal": 0, "rows": 0, "OK": 0, "ERR": 0, "PANIC": 0, "newline_text": 0, "quote_in_output": 0})
+        if f.get("note", "-") != "-":
+            e["note:" + f["note"]] = e.get("note:" + f["note"], 0) + 1
         e["wf" if f.get("kind") == "wf" else "mal"] += 1
         facts = f.get("facts", "-")
         e["rows"] += 0 if facts == "-" else facts.count(",") + 1
